@@ -86,8 +86,9 @@ def main():
         if confirmed:
             dest = VERIF / "seeded" / f"{prop}-{name}"
             dest.mkdir(parents=True, exist_ok=True)
-            shutil.copy(src / "patch.diff", dest / "patch.diff")
-            shutil.copy(src / "demo.py", dest / "demo.py")
+            if dest.resolve() != src.resolve():
+                shutil.copy(src / "patch.diff", dest / "patch.diff")
+                shutil.copy(src / "demo.py", dest / "demo.py")
             meta = {}
             if (src / "meta.json").exists():
                 try:
